@@ -19,6 +19,11 @@ func InstantiatePuppetType(ctx px.Context, loader ContentProvidingLoader, tn px.
 		}
 		px.AddTypes(ctx, nt)
 	} else {
-		px.AddTypes(ctx, types.NamedType(tn.Authority(), tn.Name(), dt))
+		switch dt.(type) {
+		case *types.DeferredType, px.OrderedMap:
+			px.AddTypes(ctx, types.NamedType(tn.Authority(), tn.Name(), dt))
+		default:
+			panic(px.Error(px.NoDefinition, issue.H{`source`: sources[0], `type`: px.NsType, `name`: tn.Name()}))
+		}
 	}
 }
